@@ -46,7 +46,7 @@ func enumSwitch(what string, sw *ast.SwitchStmt, envs map[string]*constEnv,
 		cc := c.(*ast.CaseClause)
 		if cc.List == nil {
 			for _, s := range cc.Body {
-				defaultStmts = append(defaultStmts, nodeString(s))
+				defaultStmts = append(defaultStmts, digNodeString(s))
 			}
 			continue
 		}
@@ -65,18 +65,18 @@ func enumSwitch(what string, sw *ast.SwitchStmt, envs map[string]*constEnv,
 		}
 		if val == nil {
 			// a clause that only falls out of the switch (comment-only)
-			fail("%s: case %s assigns/returns nothing", what, nodeString(cc.List[0]))
+			fail("%s: case %s assigns/returns nothing", what, digNodeString(cc.List[0]))
 			continue
 		}
 		b, ok := qualConst(envs, dflt, val)
 		if !ok {
-			fail("%s: value %s not a constant", what, nodeString(val))
+			fail("%s: value %s not a constant", what, digNodeString(val))
 			continue
 		}
 		for _, l := range cc.List {
 			a, ok := qualConst(envs, dflt, l)
 			if !ok {
-				fail("%s: label %s not a constant", what, nodeString(l))
+				fail("%s: label %s not a constant", what, digNodeString(l))
 				continue
 			}
 			pairs = append(pairs, [2]string{a, b})
@@ -88,7 +88,7 @@ func enumSwitch(what string, sw *ast.SwitchStmt, envs map[string]*constEnv,
 func findSwitchByTag(body ast.Node, tag string) *ast.SwitchStmt {
 	var res *ast.SwitchStmt
 	ast.Inspect(body, func(n ast.Node) bool {
-		if sw, ok := n.(*ast.SwitchStmt); ok && sw.Tag != nil && nodeString(sw.Tag) == tag && res == nil {
+		if sw, ok := n.(*ast.SwitchStmt); ok && sw.Tag != nil && digNodeString(sw.Tag) == tag && res == nil {
 			res = sw
 		}
 		return true
@@ -115,7 +115,7 @@ func leanStrPairs(ps [][2]string) string {
 func funcBodyStrings(fd *ast.FuncDecl) []string {
 	var res []string
 	for _, s := range fd.Body.List {
-		res = append(res, nodeString(s))
+		res = append(res, digNodeString(s))
 	}
 	return res
 }
@@ -167,7 +167,7 @@ func genOrderDigestFacts() {
 	ast.Inspect(so.Body, func(n ast.Node) bool {
 		switch x := n.(type) {
 		case *ast.CompositeLit:
-			name := nodeString(x.Type)
+			name := digNodeString(x.Type)
 			switch name {
 			case "auctioneerrpc.ServerOrder", "auctioneerrpc.ServerAsk", "auctioneerrpc.ServerBid":
 				if _, dup := lits[name]; dup {
@@ -180,7 +180,7 @@ func genOrderDigestFacts() {
 						fail("SubmitOrder: positional element in %s literal", name)
 						continue
 					}
-					kv = append(kv, [2]string{nodeString(k.Key), nodeString(k.Value)})
+					kv = append(kv, [2]string{digNodeString(k.Key), digNodeString(k.Value)})
 				}
 				lits[name] = kv
 			}
@@ -188,10 +188,10 @@ func genOrderDigestFacts() {
 			if x.Tok == token.DEFINE && len(x.Rhs) == 1 {
 				var names []string
 				for _, l := range x.Lhs {
-					names = append(names, nodeString(l))
+					names = append(names, digNodeString(l))
 				}
 				if _, isLit := x.Rhs[0].(*ast.UnaryExpr); !isLit {
-					locals = append(locals, [2]string{strings.Join(names, ","), nodeString(x.Rhs[0])})
+					locals = append(locals, [2]string{strings.Join(names, ","), digNodeString(x.Rhs[0])})
 				}
 			}
 		}
@@ -208,7 +208,7 @@ func genOrderDigestFacts() {
 	ast.Inspect(so.Body, func(n ast.Node) bool {
 		if as, ok := n.(*ast.AssignStmt); ok && as.Tok == token.ASSIGN && len(as.Lhs) == 1 {
 			if sel, ok := as.Lhs[0].(*ast.SelectorExpr); ok {
-				fieldAssigns = append(fieldAssigns, [2]string{nodeString(sel), nodeString(as.Rhs[0])})
+				fieldAssigns = append(fieldAssigns, [2]string{digNodeString(sel), digNodeString(as.Rhs[0])})
 			}
 		}
 		return true
@@ -249,7 +249,7 @@ func genOrderDigestFacts() {
 		}
 		for _, s := range pso.Body.List {
 			if as, ok := s.(*ast.AssignStmt); ok && as.Tok == token.ASSIGN && len(as.Lhs) == 1 {
-				psoAssigns = append(psoAssigns, [2]string{nodeString(as.Lhs[0]), nodeString(as.Rhs[0])})
+				psoAssigns = append(psoAssigns, [2]string{digNodeString(as.Lhs[0]), digNodeString(as.Rhs[0])})
 			}
 		}
 	}
